@@ -9,7 +9,7 @@
                                                         ->  api class=<c> status=<n|*> grew=<n|*> h=<handler> sid=<n|->
    post <leader> <op>*   C:<id>:<auth>  P:<sid>:<jp>:<deaths>  Q:<sid>:<cmid>:<data>:<deaths>  X:<sid>:<cmid>  D:<sid>:<jd>:<deaths>  K:<sid>:<deaths>  S
                                                         ->  post <obs>* E:<entries>:<id.alive.lpm,...>
-   cfg <rev> <base> <banned> <op>*   F:<hdr|!>:<body>:<tp>  B:<addr>:<reason>  O  S
+   cfg <rev> <base> <banned> <op>*   F:<hdr|!>:<body>:<tp>  H:<rev>:<body>:<tp>  B:<addr>:<reason>  O  S
         tp = <base>/<banned> | !      banned = <addr>=<reason>,... | -
                                                         ->  cfg <obs>* *)
 From RV Require Import Base.Text Api.Auth Api.Post Api.ConfigPost.
@@ -211,6 +211,15 @@ Definition cfg_op (acc : cstate string * list string) (tok : string) : cstate st
                end in
     let st' := cfg_step string (fun _ => tp) st hdr body in
     (st', snoc outs ("F:" ++ res ++ ":" ++ show_c st'))
+  else if String.eqb k "H" then
+    (* a raw Config entry with a chosen revision, committed by whatever means *)
+    let rev := N_of (nth_s a 1) in
+    let body := unhex_field (nth_s a 2) in
+    let tp := parse_tp (nth_s a 3) in
+    let e := CEConfig body rev in
+    let res := if takes_effect string (fun _ => tp) st e then "eff" else "skip" in
+    let st' := capply string (fun _ => tp) st e in
+    (st', snoc outs ("H:" ++ res ++ ":" ++ show_c st'))
   else if String.eqb k "B" then
     let st' := capply string (fun _ => None) st (CEGline (unhex_field (nth_s a 1)) (unhex_field (nth_s a 2))) in
     (st', snoc outs ("B:" ++ show_c st'))
